@@ -1,6 +1,7 @@
 import GA.Props.C05d
 import GA.Props.C05e
 import GA.Props.C05f
+import GA.Props.C05g
 /-
   C05 / C20, the statement for a whole archive at once: **after a successful `Untar`, every entry that has the
   last word on its path is fully present** — for every archive without symbolic-link entries, every option set
@@ -66,6 +67,24 @@ theorem untar_success_all_present (dest : Str) (o : Opts) (es : List Entry) (w :
   · obtain ⟨e', i, n, hrem, hl, hi, hk, hrd, hpm, hmt, hown⟩ :=
       untar_node_last_wins dest o pre post e w habs hov hsym hw (Or.inr (Or.inr h)) huns hnx hne hfin.1 (hfin.2 (by rw [h]; decide)) hok
     exact ⟨e', i, n, hrem, hl, hi, hpm, hmt, hown, by rw [h] at hk ⊢; exact hk⟩
+
+/-- … and every hard-link entry whose own path and whose source nothing later names (or names a path above) shares
+    its source's object -/
+theorem untar_success_links_shared (dest : Str) (o : Opts) (es : List Entry) (w : World)
+    (habs : isAbs dest = true) (hov : o.overlay = false)
+    (hsym : ∀ x ∈ es, x.typ ≠ .sym)
+    (hw : LW (pathComps (clean dest)) w)
+    (hok : ((untarP dest o es).run w).1 = .ok) :
+    ∀ (pre post : List Entry) (e : Entry), es = pre ++ e :: post → e.typ = .link →
+      o.excludes.any (fun x => hasPrefix (clean e.name) x) = false →
+      pathOf dest e ≠ pathComps (clean dest) →
+      ¬ Cov (touched (clean dest) post) (pathOf dest e) →
+      ¬ Cov (touched (clean dest) post) (pathComps (join (clean dest) e.linkname)) →
+      ∃ i, ((untarP dest o es).run w).2.fs.lookup (pathOf dest e) = some i ∧
+        ((untarP dest o es).run w).2.fs.lookup (pathComps (join (clean dest) e.linkname)) = some i := by
+  intro pre post e hes hl hnx hne hc hcs
+  subst hes
+  exact untar_link_shares dest o pre post e w habs hov hsym hw hl hnx hne hc hcs hok
 
 /-- non-vacuity: in the archive `d/`, `d/x` of C05e both entries have the last word on their paths -/
 example : Final b!"/w/dest" exDirEntry [exChild] ∧ Final b!"/w/dest" exChild [] := by
